@@ -72,6 +72,12 @@ theorem source_clone_is_model_clone (len a b cv : Nat) (evs dr) (s : KSrc) (t : 
   unfold stepRest
   simp [h, applyAtom]
 
+/-- **`clone_from` / `clone_into` are `clone`**: the `Clone` impls of the slice iterator and of the counter define `clone` only, and
+the range iterator's is derived — so `a.clone_from(&b)` is std's default `*a = b.clone()`, whatever `a` was before -/
+theorem source_clone_from_is_clone :
+    NewSlice.clone_methods = ["clone"] ∧ NewCounter.clone_methods = ["clone"] ∧ ("Clone" ∈ Range.derives ∧ Range.manual_clone = false) :=
+  ⟨clone_impls_define_clone_only.1, clone_impls_define_clone_only.2, range_clone_is_derived⟩
+
 end Source
 
 end Orx.Props.C19
